@@ -54,27 +54,53 @@ Theorem C11_frozen_refuted_1 : exists os o,
 Proof. exists w_sidestep, (OWithdraw 11 6 400 false false). vm_compute. repeat split. Qed.
 Print Assumptions C11_frozen_refuted_1.
 
-(* ---- withdrawn <= staked - penalised : witnesses of the violation (the real code reproduces
-   them: findings/C11_stake_amount_ge_2p63.json, findings/C11_negative_amount_deliver.json) ---- *)
-Definition w_2p64 : list op :=
-  [OBegin []; OStake 9 10 (2^64) false (1000000 * base) 2 2 false false; OEnd 2 [];
-   OBegin []; OUnstake 9 10 1000 false false 3 2 false false; OEnd 3 []; OBegin []; OEnd 4 []; OBegin []; OEnd 5 [];
-   OBegin []; OWithdraw 9 10 1000 false false; OEnd 6 []].
-Theorem C11_withdraw_bounded_refuted_1 : exists os,
-  existsb trig_narrow os = true /\
+(* ---- withdrawn <= staked - penalised, exactly once (the central claim) ----
+   FULL since fix 48c76fc (the handlers reject amounts outside [0, 2^63)): for every history of
+   operations, every value of the environment inputs and every verdict, over a genesis with
+   non-negative amounts.  Whole OLT, base units on the balance side, and the conservation law: what
+   was staked and not penalised or withdrawn is exactly what is still locked (effective),
+   withdrawable (bounded) or maturing — every unit in exactly one place, each place non-negative. *)
+Theorem C11_withdraw_bounded : forall os,
+  forallb gen_nonneg os = true ->
   let s := run empty_state os in
-  zget (g_out s) 10%positive > zget (g_in s) 10%positive - zget (g_pen s) 10%positive * base.
-Proof. exists w_2p64. split; vm_compute; reflexivity. Qed.
-Print Assumptions C11_withdraw_bounded_refuted_1.
+  forall d,
+    zget (g_withdrawn s) d <= zget (g_staked s) d - zget (g_pen s) d /\
+    zget (g_out s) d <= zget (g_in s) d - zget (g_pen s) d * base /\
+    zget (g_staked s) d - zget (g_pen s) d - zget (g_withdrawn s) d
+      = zget (deff s) d + zget (dbnd s) d + maturing s d /\
+    0 <= zget (deff s) d /\ 0 <= zget (dbnd s) d /\ 0 <= maturing s d.
+Proof. exact withdraw_bounded. Qed.
+Print Assumptions C11_withdraw_bounded.
 
-Theorem C11_withdraw_bounded_refuted_2 : exists os,
-  existsb trig_negative os = true /\
-  let s := run empty_state os in
-  zget (g_withdrawn s) 12%positive > zget (g_staked s) 12%positive - zget (g_pen s) 12%positive /\
-  bal_delta (OStake 11 12 (-100) false (1000000 * base) 2 2 false false) true = 100 * base.
-Proof. exists [OBegin []; OStake 11 12 (-100) false (1000000 * base) 2 2 false false; OEnd 2 []].
-  split; vm_compute; [reflexivity | split; reflexivity]. Qed.
-Print Assumptions C11_withdraw_bounded_refuted_2.
+(* non-vacuity: a history in which something IS withdrawn (1000 of 2998000, after maturity) *)
+Definition w_life : list op :=
+  [OGenStake 5 6 2998000; OBegin []; OEnd 1 []; OBegin []; OUnstake 5 6 1000 false false 2 2 false false; OEnd 2 [];
+   OBegin []; OEnd 3 []; OBegin []; OEnd 4 []; OBegin []; OWithdraw 5 6 1000 false false; OEnd 5 []].
+Example C11_withdraw_bounded_nonvacuous :
+  forallb gen_nonneg w_life = true /\ zget (g_withdrawn (run empty_state w_life)) 6%positive = 1000 /\
+  zget (g_out (run empty_state w_life)) 6%positive = 1000 * base.
+Proof. vm_compute. repeat split. Qed.
+
+(* amounts that are negative or do not fit int64 are rejected by all three handlers *)
+Theorem C11_amount_out_of_range_rejected : forall s v d a fz bal h m ro pb ff,
+  amount_ok a = false ->
+  step s (OStake v d a fz bal h m pb ff) = (s, false) /\
+  step s (OUnstake v d a fz ro h m pb ff) = (s, false) /\
+  step s (OWithdraw v d a fz ff) = (s, false).
+Proof. exact out_of_range_rejected. Qed.
+Print Assumptions C11_amount_out_of_range_rejected.
+
+(* the former witnesses of C11_withdraw_bounded_refuted_1/_2 (findings C11.stake_amount_ge_2p63,
+   C11.negative_amount_deliver; replayed on the real application on every run) are now rejected *)
+Example C11_former_witness_2p64_rejected :
+  trig_narrow (OStake 9 10 (2^64) false (1000000 * base) 2 2 false false) = true /\
+  step empty_state (OStake 9 10 (2^64) false (1000000 * base) 2 2 false false) = (empty_state, false).
+Proof. split; vm_compute; reflexivity. Qed.
+Example C11_former_witness_negative_rejected :
+  trig_negative (OStake 11 12 (-100) false (1000000 * base) 2 2 false false) = true /\
+  step empty_state (OStake 11 12 (-100) false (1000000 * base) 2 2 false false) = (empty_state, false) /\
+  step empty_state (OWithdraw 3 4 (-7) false false) = (empty_state, false).
+Proof. repeat split; vm_compute; reflexivity. Qed.
 
 (* ---- the v_ record's stake equals st__t_ : refuted (trigger C11.validator_record_deleted_with_stake) ---- *)
 Definition w_deleted : list op :=
@@ -98,15 +124,10 @@ Theorem C11_maturity_unstake_entry : forall s v d a ro h m pb ff s',
 Proof. exact unstake_entry. Qed.
 Print Assumptions C11_maturity_unstake_entry.
 
-(* the withdrawable amount grows only in the end-block hook — for non-negative amounts (partial:
-   complement of C11.negative_amount_deliver); refuted by WITHDRAW -7 *)
-Theorem C11_maturity_withdrawable_partial : forall s o d',
-  trig_negative o = false ->
+(* the withdrawable amount grows only in the end-block hook: no transaction and no begin-block
+   raises anybody's withdrawable amount (FULL since fix 48c76fc) *)
+Theorem C11_maturity_withdrawable : forall s o d',
   match o with OStake _ _ _ _ _ _ _ _ _ | OUnstake _ _ _ _ _ _ _ _ _ | OWithdraw _ _ _ _ _ | OBegin _ => True | _ => False end ->
   zget (dbnd (fst (step s o))) d' <= zget (dbnd s) d'.
 Proof. exact withdrawable_not_growing_in_tx. Qed.
-Print Assumptions C11_maturity_withdrawable_partial.
-Theorem C11_maturity_withdrawable_refuted_1 : exists s o d',
-  trig_negative o = true /\ zget (dbnd (fst (step s o))) d' > zget (dbnd s) d'.
-Proof. exists empty_state, (OWithdraw 3 4 (-7) false false), 4%positive. split; vm_compute; reflexivity. Qed.
-Print Assumptions C11_maturity_withdrawable_refuted_1.
+Print Assumptions C11_maturity_withdrawable.
